@@ -10,9 +10,13 @@ CLAIMED = {
  "C05": ("crash/abort monitor: panic capture (overflow checks on) over all syntax generators, structure-aware index/slice extremes, adversarial built-in arguments; child-process depth ladder", "4/C05"),
  "C06": ("complete enumeration of the (function x arity x argument-class^n) decision table with seeded representatives against the specification table in the reference model", "4/C06"),
  "C07": ("small-scope enumeration + random search against a 128-bit transcription of Python's slice rule", "4/C07"),
+ "C08": ("construction oracle: JSON text generated together with the value it denotes (randomised spelling), checked through parse, identity query, print/re-parse and serde_json::Value conversions", "4/C08"),
  "C09": ("round trip by construction (spell a value, evaluate, compare) and per-form reference decoder differential over arbitrary delimiter/backslash/escape juxtapositions", "4/C09"),
  "C10": ("generated value pairs in varied spellings against own deep-equality / numeric-order model and the algebraic laws", "4/C10"),
  "C12": ("planted-fault construction oracle (kind + byte position known to the generator) and independently recomputed error-record invariants over generated failing compiles/searches", "4/C12"),
+ "C13": ("stateful/model-based: generated call histories (compile/clone/drop/search through four input routes) against a pure-table model + reference evaluation", "4/C13"),
+ "C14": ("differential against serde_json::to_value/from_value over generated values of derive-d types covering the serde data model, incl. cross-type decoding", "4/C14"),
+ "C15": ("stateful/model-based: generated register/deregister histories against a map model with recording custom functions", "4/C15"),
  "C11": ("metamorphic/self-consistency: compound expression vs. its separately evaluated parts, implementation only", "4/C11"),
 }
 NOT_YET = "check not built yet in this revision (work in progress; DESIGN.md section 4 has the plan)"
